@@ -8,6 +8,9 @@
             table says the lock is free (so no managed thread ever blocks in the kernel);
         (b) the n-th call of a kind (open / lock / unlock / close) raises OSError when the case's
             fault script contains (kind, n).  A faulting close still closes the descriptor.
+            An entry (kind, n, 'ki') with kind unlock / close raises a KeyboardInterrupt subclass
+            instead (a BaseException that is not an Exception): at these two sites the library treats
+            it exactly like the OSError (bare `except:` clauses), so the model needs no second kind.
     The shim keeps its own table (open descriptions, who holds EX/SH) and compares it with every
     answer of the kernel: a difference is recorded in ``env.kernel_mismatch`` (this is the
     validation of the model's flock assumption).
@@ -40,6 +43,10 @@ def opcode(op: str) -> int:
     return OPCODES.get(op.rsplit('.', 1)[-1], 99)
 
 
+class Interrupt(KeyboardInterrupt):
+    """Injected non-Exception BaseException (what a signal handler raises inside a system call)."""
+
+
 class Env:
     """Everything one case needs: controller, real lock file, fault script, tables."""
 
@@ -48,7 +55,8 @@ class Env:
         self.own_dir = tmpdir is None
         self.dir = tmpdir or tempfile.mkdtemp(prefix='flock-')
         self.path = real_os.path.join(self.dir, 'x.lock')
-        self.faults = {(k, int(n)) for k, n in faults}
+        self.faults = {(f[0], int(f[1])) for f in faults}
+        self.ki = {(f[0], int(f[1])) for f in faults if len(f) > 2 and f[2] == 'ki' and f[0] in ('unlock', 'close')}
         self.nsys = dict(open=0, lock=0, unlock=0, close=0)
         self.fired = 0
         self.open_fds = {}            # real fd -> ofd serial
@@ -106,8 +114,8 @@ class Env:
         self.nsys[kind] = n + 1
         if (kind, n) in self.faults:
             self.fired += 1
-            return True
-        return False
+            return Interrupt if (kind, n) in self.ki else OSError
+        return None
 
     def fault_pending(self, kind):
         return (kind, self.nsys[kind]) in self.faults
@@ -201,7 +209,7 @@ class _Os:
         env.open_fds.pop(fd, None)
         env.holders.pop(fd, None)
         if bad:
-            raise OSError(errno.EIO, 'injected fault: close')
+            raise bad(errno.EIO, 'injected fault: close')
 
 
 class _Fcntl:
@@ -220,8 +228,9 @@ class _Fcntl:
         env = self.env
         if op & real_fcntl.LOCK_UN:
             env.gate('unlock')
-            if env.fault('unlock'):
-                raise OSError(errno.EIO, 'injected fault: unlock')
+            bad = env.fault('unlock')
+            if bad:
+                raise bad(errno.EIO, 'injected fault: unlock')
             real_fcntl.flock(fd, real_fcntl.LOCK_UN)
             env.holders.pop(fd, None)
             return
